@@ -4,8 +4,8 @@
    lists in Model/Alloc.v.  Loop: Proofs/C06_Loop.v about the state machine Model/Mlmc.v shared with C05.
    Tree: fix-mc (e8b4517: bias tolerance sqrt(theta)*rmse; d6e63ca: new level starts with Nl = 0). *)
 From Coq Require Import Reals List ZArith QArith Bool.
-From RV Require Import Base.RB Base.RCeilMC Gen.GenC06Criteria Model.Alloc Model.McStats Model.Mlmc
-                       Proofs.C06_Alloc Proofs.C06_Loop Proofs.C06_Compose.
+From RV Require Import Base.RB Base.RCeilMC Gen.GenC06Criteria Gen.GenC06Regress Model.Alloc Model.Regress Model.McStats Model.Mlmc
+                       Proofs.C06_Alloc Proofs.C06_Loop Proofs.C06_Compose Proofs.C06_Regress Proofs.C06_RealAlloc.
 Import ListNotations.
 
 (* for all variance vectors V >= 0, cost vectors C > 0 (same length) and all rmse > 0, the ceil'ed Giles
@@ -107,6 +107,88 @@ Theorem C06_termination_partial :
     exists fuel, price_run sample cost alloc conv garbage df notional level_max 0 fuel L0 N0 <> OutOfFuel.
 Proof. exact termination_bounded_demand. Qed.
 
+(* ------------------------------------------------------------------ wave 5: rate regression, real allocation, float range *)
+(* np.linalg.lstsq as modelled (Model/Regress.v) IS least squares, for every number of levels (0, 1, 2, ...), every first
+   level number x and every observation vector: no line has a smaller sum of squared residuals *)
+Theorem C06_regression_is_least_squares : forall x ys a b,
+  (sse (fst (lstsq (points x ys))) (snd (lstsq (points x ys))) (points x ys) <= sse a b (points x ys))%R.
+Proof. exact lstsq_minimises. Qed.
+(* ... with two or more levels it is the unique minimiser (the ordinary least-squares line) *)
+Theorem C06_regression_unique_from_two_levels : forall x y1 y2 r a b, let ps := points x (y1 :: y2 :: r) in
+  (sse a b ps <= sse (fst (lstsq ps)) (snd (lstsq ps)) ps)%R -> a = fst (lstsq ps) /\ b = snd (lstsq ps).
+Proof. exact lstsq_unique. Qed.
+(* ... with ONE level (Engine.price at L = 1) it is the minimum-norm solution of the single equation: not a slope *)
+Theorem C06_regression_single_level_is_minimum_norm : forall x y a b, (a * x + b = y)%R ->
+  (fst (lstsq (points x [y])) * x + snd (lstsq (points x [y])) = y)%R
+  /\ (fst (lstsq (points x [y])) ^ 2 + snd (lstsq (points x [y])) ^ 2 <= a ^ 2 + b ^ 2)%R.
+Proof. exact lstsq_single_level. Qed.
+(* exact geometric decay m * 2^(-a l) on levels 1..n, n >= 2: the GENERATED log2_regression answers max(1/2, a) *)
+Theorem C06_regression_recovers_geometric_rate : forall m0 m a n, (0 < m)%R -> (2 <= n)%nat ->
+  let ml := m0 :: map (fun p => m * Rpower 2 (- a * fst p))%R (points 1 (repeat 0%R n)) in
+  log2_regression ml log2_regression_default_max_val = Rmax (1 / 2) a.
+Proof. exact regression_recovers_geometric_rate. Qed.
+(* the clamp: for EVERY array (zeros, one level, none) the regressed rate r has 2^r >= sqrt 2 > 1: the bias test divides by
+   2^alpha - 1 > 0 whenever alpha is regressed *)
+Theorem C06_regressed_rate_guard : forall l,
+  (sqrt 2 <= Rpower 2 (log2_regression l log2_regression_default_max_val))%R
+  /\ (1 < Rpower 2 (log2_regression l log2_regression_default_max_val))%R.
+Proof. exact regressed_rate_guard. Qed.
+(* C06_bias_plus_variance with the weak rate the engine regresses (configured alpha = None): no hypothesis on alpha is left *)
+Theorem C06_bias_plus_variance_regressed : forall prev ml rmse, (0 <= rmse)%R -> Forall (fun m => 0 <= m)%R ml ->
+  let alpha := alpha_of_pass None prev ml in
+  criteria_giles alpha ml rmse = true ->
+  ((giles_rem alpha ml) ^ 2 + (1 - 1 / 4) * rmse ^ 2 <= rmse ^ 2)%R.
+Proof. exact bias_plus_variance_regressed. Qed.
+(* the ml / vl work-around (r = 2^rate > 0): levels 0-2 untouched, nothing decreased, and a positive level 2 makes every
+   later entry positive (finite log2 from level 3 on) *)
+Theorem C06_workaround_guarantee : forall r m0 m1 m2 t, (0 < r)%R -> (0 < m2)%R ->
+  exists t', workaround r (m0 :: m1 :: m2 :: t) = m0 :: m1 :: m2 :: t'
+             /\ Forall (fun m => 0 < m)%R t' /\ Forall2 (fun m m' => m <= m')%R t t'.
+Proof. exact workaround_guarantee. Qed.
+
+(* float range, in the real-number reading of the generated guard `optimal < 2.0**63`: the error value (ValueError) is
+   returned EXACTLY when the optimum is not below 2^63; otherwise the answer is the least integer >= the optimum, in [0, 2^63] *)
+Theorem C06_error_exactly_when_not_representable : forall rmse v c T, (0 <= T)%R ->
+  (giles_alloc_core rmse v c T = (-1)%R <-> (int_bound <= giles_optimal rmse v c T)%R)
+  /\ ((giles_optimal rmse v c T < int_bound)%R ->
+      exists z : Z, giles_alloc_core rmse v c T = IZR z /\ (0 <= z <= 2 ^ 63)%Z
+                    /\ (IZR z - 1 < giles_optimal rmse v c T <= IZR z)%R).
+Proof. exact core_error_iff. Qed.
+
+(* termination with the REAL allocation: from some answer k0 on the oracle is the generated Giles allocation of estimates with
+   sqrt(V_l / C'_l) <= Q and sum sqrt(V C) <= Smax (any lengths, zero costs allowed, answers before k0 arbitrary) *)
+Theorem C06_termination_real_allocation :
+  forall sample cost alloc conv garbage df notional level_max L0 N0 rmse Q Smax k0,
+    (0 < rmse)%R ->
+    (forall k, (k0 <= k)%nat -> exists V C, map IZR (alloc k) = giles_alloc rmse V C
+                                             /\ Forall2 (ratio_le Q) V C /\ (S_of V C <= Smax)%R) ->
+    (L0 <= level_max)%nat ->
+    exists fuel, price_run sample cost alloc conv garbage df notional level_max 0 fuel L0 N0 <> OutOfFuel.
+Proof. exact termination_bounded_estimates. Qed.
+(* in particular when the per-level estimates are fixed from answer k0 on (answer k uses the first n_k levels) *)
+Theorem C06_termination_fixed_estimates :
+  forall sample cost alloc conv garbage df notional level_max L0 N0 rmse Vfix Cfix k0,
+    (0 < rmse)%R -> length Vfix = length Cfix ->
+    (forall k, (k0 <= k)%nat -> exists n, map IZR (alloc k) = giles_alloc rmse (firstn n Vfix) (firstn n Cfix)) ->
+    (L0 <= level_max)%nat ->
+    exists fuel, price_run sample cost alloc conv garbage df notional level_max 0 fuel L0 N0 <> OutOfFuel.
+Proof. exact termination_fixed_estimates. Qed.
+
+(* non-vacuity of the wave-5 statements *)
+Example C06_regressed_bias_test_passes :
+  alpha_of_pass None 0 ex_ml = 2%R /\ Forall (fun m => 0 <= m)%R ex_ml /\ criteria_giles (alpha_of_pass None 0 ex_ml) ex_ml 1 = true.
+Proof. exact regressed_ex. Qed.
+Example C06_single_level_rate_is_half_log : forall m0 m1,
+  log2_regression [m0; m1] log2_regression_default_max_val = Rmax (1 / 2) (- (log2R m1 / 2)).
+Proof. exact single_level_rate. Qed.
+Example C06_real_allocation_oracle_exists :
+  exists alloc : nat -> list Z,
+    (forall k, (0 <= k)%nat -> exists n, map IZR (alloc k) = giles_alloc 1 (firstn n ex_V) (firstn n ex_C))
+    /\ alloc 0%nat = [12; 5; 2]%Z.
+Proof. exact real_allocation_oracle_ex. Qed.
+Example C06_error_branch_met : giles_alloc_core (1 / 2 ^ 40) 1 1 1 = (-1)%R.
+Proof. exact core_error_ex. Qed.
+
 (* behaviour before the repair of F-C06-3: the loop entered above the maximum (price_run = the loop without the entry check) *)
 Example C06_level_above_maximum_before_repair :
   exists sample cost alloc conv garbage s,
@@ -131,5 +213,19 @@ Print Assumptions C06_never_above_maximum.
 Print Assumptions C06_allocation_representable_or_error.
 Print Assumptions C06_budget_at_converged_return.
 Print Assumptions C06_termination_partial.
+Print Assumptions C06_regression_is_least_squares.
+Print Assumptions C06_regression_unique_from_two_levels.
+Print Assumptions C06_regression_single_level_is_minimum_norm.
+Print Assumptions C06_regression_recovers_geometric_rate.
+Print Assumptions C06_regressed_rate_guard.
+Print Assumptions C06_bias_plus_variance_regressed.
+Print Assumptions C06_workaround_guarantee.
+Print Assumptions C06_error_exactly_when_not_representable.
+Print Assumptions C06_termination_real_allocation.
+Print Assumptions C06_termination_fixed_estimates.
+Print Assumptions C06_regressed_bias_test_passes.
+Print Assumptions C06_single_level_rate_is_half_log.
+Print Assumptions C06_real_allocation_oracle_exists.
+Print Assumptions C06_error_branch_met.
 Print Assumptions C06_level_above_maximum_before_repair.
 Print Assumptions C06_bias_plus_variance_before_repair.
